@@ -304,3 +304,46 @@ _add(Cond('frame_sort_values_key_kinds_all_layouts', [('kk', 'int'), ('k0', 'int
         functions=['Frame.sort_values'],
         bounds='3-row frame (payload, key, second int key); str payload column; kind of the key column symbolic over (int64, str, float64, bool), key values symbolic over two values (ties forced), one or two sort keys, ascending symbolic; every block layout that can hold the kinds; tie tape',
         route='Frame.sort_values(key | [key, second]) on mixed column kinds: whole rows move together (value and type), stable, descending == reverse, dtypes kept, the same over all block layouts', timeout=600))
+
+
+# ---------------------------------------------------------------- key functions on the AUTOMATIC (0..n-1, map-less) index
+
+def body_sort_index_key_auto(env, v0, v1, v2, v3, kind, asc, target):
+    from vf import rt
+    ranks = [_conc(v, 0, 2) for v in (v0, v1, v2, v3)]      # the key the function assigns to label i (ties possible)
+    kind, asc, target = _conc(kind, 0, 2), bool(asc), _conc(target, 0, 1)
+
+    def run():
+        sf = env.sf
+
+        def key(ix):
+            vals = [ranks[int(v)] for v in ix.values.tolist()]
+            if kind == 0:
+                return env.array(vals, 'int64')
+            if kind == 1:
+                return sf.Index([10 * r + (3 - int(v)) for r, v in zip(vals, ix.values.tolist())])    # distinct, order = (rank, -label)
+            return env.array([[r, 0] for r in vals], 'int64')
+        labs = [0, 1, 2, 3]
+        sort_key = (lambda i: (ranks[i], -i)) if kind == 1 else (lambda i: ranks[i])
+        o = sorted(labs, key=sort_key)
+        if not asc:
+            o = o[::-1]
+        if target == 0:
+            s = sf.Series(env.array([7, 8, 9, 10], 'int64'), name='sn')          # no index given: automatic index
+            r = s.sort_index(ascending=asc, key=key)
+            got = [env.obs(r.index.values.tolist()), env.obs(r.values.tolist()), env.obs(r.name)]
+            exp = [o, [7 + i for i in o], 'sn']
+        else:
+            f = sf.Frame(env.array([[1, 2], [3, 4], [5, 6], [7, 8]], 'int64'), name='nm')   # automatic index and columns
+            r = f.sort_index(ascending=asc, key=key)
+            got = [env.obs(r.index.values.tolist()), env.obs(r.values.tolist()), env.obs(r.name)]
+            exp = [o, [[2 * i + 1, 2 * i + 2] for i in o], 'nm']
+        return got, exp
+    return rt.untraced(run)
+
+
+_add(Cond('sort_index_key_function_auto_index', [('v0', 'int'), ('v1', 'int'), ('v2', 'int'), ('v3', 'int'), ('kind', 'int'), ('asc', 'bool'), ('target', 'int')], body_sort_index_key_auto,
+        ranges={'v0': (0, 2), 'v1': (0, 2), 'v2': (0, 2), 'v3': (0, 2), 'kind': (0, 2), 'target': (0, 1)},
+        functions=['sort_index_for_order'],
+        bounds='Series / Frame (symbolic) built WITHOUT labels (automatic 0..3 index); key function assigning each label a symbolic rank in 0..2, returned as a 1-D array / an Index / a 2-D array (symbolic); ascending symbolic',
+        route='sort_index(key=callable) on the automatic index: ordered by the key (stable, descending == reverse), rows move with their labels', timeout=400))
